@@ -253,7 +253,9 @@ def attachCheck (s : State) (l : Layer) : Option Why :=
     else if l.dims ≠ s.dims then some .dims
     else none
 
-/-- `PropertyLayer(name, dims, default, dtype)`: a fresh array of that dtype filled with the default -/
+/-- `PropertyLayer(name, dims, default, dtype)`: a fresh array of that dtype filled with the default
+    (`np.full(dims, default, dtype)`; `default` here is the entry stored — `step` casts a Python scalar of
+    another type like an assignment does, the constructor only warns about it) -/
 def newLayer (s : State) (name : String) (dims : List Nat) (dt : DType) (default : Int) : State × Out :=
   if s.impl ≠ .new ∧ (dims.length ≠ 2 ∨ 0 ∈ dims) then (s, .err (.value .dims)) else
   ({ s with heap := upd s.heap s.next (fun _ => default), adt := upd s.adt s.next dt, next := s.next + 1,
@@ -744,8 +746,8 @@ inductive MaskRef where
   | saved (k : Nat)
 
 inductive Op where
-  | create (name : String) (dt : DType) (default : Int)
-  | newLayer (name : String) (dims : List Nat) (dt : DType) (default : Int)
+  | create (name : String) (dt : DType) (default : WVal)
+  | newLayer (name : String) (dims : List Nat) (dt : DType) (default : WVal)
   | attach (lid : Nat)
   | detach (name : String)
   | layerSet (lid : Nat) (c : Coord) (v : WVal)
@@ -802,8 +804,8 @@ def State.handleWVal (s : State) (h : Nat) (w : WVal) : Int :=
   | none => w.resolve .int
 
 def step (s : State) : Op → State × Out
-  | .create n dt d => create s n dt d
-  | .newLayer n dims dt d => newLayer s n dims dt d
+  | .create n dt d => create s n dt (d.resolve dt)
+  | .newLayer n dims dt d => newLayer s n dims dt (d.resolve dt)
   | .attach l => attach s l
   | .detach n => detach s n
   | .layerSet l c w => layerSet s l c (w.resolve (s.dtypeOf l))
